@@ -152,6 +152,19 @@ func evalC17(c c17Case, rec *hx.Rec) error {
 				return fmt.Errorf("SqrtPrecomp(%s) = %s whose square is %s (case %+v)", v.Text(16), rb.Text(16), sq.Text(16), c)
 			}
 			rec.Label("residue")
+			// the returned root belongs to the caller: it is overwritten, and the same question is asked again
+			root.Add(root, root).SetOne()
+			var again *fp.Element
+			if perr := hx.Try(func() { again = fp.SqrtPrecomp(&fe) }); perr != nil {
+				return fmt.Errorf("SqrtPrecomp(%s), second call: %w", v.Text(16), perr)
+			}
+			if again == nil {
+				return fmt.Errorf("SqrtPrecomp(%s) returned nil on the second call", v.Text(16))
+			}
+			again.BigInt(&rb)
+			if sq2 := new(big.Int).Mul(&rb, &rb); sq2.Mod(sq2, ref.P).Cmp(v) != 0 {
+				return fmt.Errorf("SqrtPrecomp(%s), asked again after the caller overwrote the first result, returns %s whose square is %s", v.Text(16), rb.Text(16), sq2.Text(16))
+			}
 		} else {
 			rec.Label("nonresidue")
 		}
